@@ -304,7 +304,11 @@ func cmdCheck(args []string) {
 	}
 	workers := envInt("VERIF_WORKERS", minInt(runtime.NumCPU(), 16))
 	chunk := envInt("VERIF_CHUNK", 20)
-	quickRuns := envInt("VERIF_RUNS", 1200)
+	defRuns := 1200
+	if prop == "C17" {
+		defRuns = 400 // every block asks ~100 queries on four routes
+	}
+	quickRuns := envInt("VERIF_RUNS", defRuns)
 	budget := time.Duration(envInt("VERIF_BUDGET_S", 900)) * time.Second
 	if !thorough {
 		budget = time.Duration(envInt("VERIF_BUDGET_S", 240)) * time.Second
